@@ -273,6 +273,60 @@ func runC13(c *Ctx) {
 		}
 		c.R.Check(ok, "R13.3", "withinConfidenceThreshold admits ratio == threshold", p.Pos(fn.Pos()), why, why)
 	}
+	// R13.3 (second half): the length pre-filter of nearestMatch skips a known value only when its length ratio is strictly
+	// below MinDiffRatio: with MinDiffRatio = 1.0 a string equal to a known value has ratio 1.0 and must get through
+	{
+		nF, bad := 0, ""
+		for _, fn := range pkgFuncs(p, scPkg) {
+			for _, b := range fn.Blocks {
+				for _, in := range b.Instrs {
+					bo, ok := in.(*ssa.BinOp)
+					if !ok {
+						continue
+					}
+					right := strings.HasSuffix(core.AP(bo.Y), ".MinDiffRatio")
+					left := strings.HasSuffix(core.AP(bo.X), ".MinDiffRatio")
+					if !right && !left {
+						continue
+					}
+					nF++
+					op := bo.Op
+					if left { // normalise to `ratio OP bound`
+						switch op {
+						case token.LSS:
+							op = token.GTR
+						case token.GTR:
+							op = token.LSS
+						case token.LEQ:
+							op = token.GEQ
+						case token.GEQ:
+							op = token.LEQ
+						}
+					}
+					// ratio < bound (skip when true) and ratio >= bound (keep when true) put equality on the keeping side
+					if op != token.LSS && op != token.GEQ {
+						bad = core.ShortFn(fn) + ": ratio " + op.String() + " MinDiffRatio (" + p.Pos(bo.Pos()) + ")"
+					}
+				}
+			}
+		}
+		c.R.Check(bad == "", "R13.3", "the length pre-filter keeps a known value whose length ratio equals MinDiffRatio", scPkg, fmt.Sprintf("%d comparisons with MinDiffRatio, each `ratio < bound` or `ratio >= bound`", nF),
+			bad+": a known value whose length ratio equals the bound is skipped - with MinDiffRatio = 1.0 that is every string equal to a known value, and NearestMatch returns nothing for it")
+		c.R.RequireMin("R13.3", "comparisons with MinDiffRatio", nF, 1)
+	}
+	// R13.13: a precomputed value is registered as it is given: its search set was computed from exactly this text, so the
+	// text is not normalised (again) on the way in
+	if apv := p.Func(scPkg, "(*Classifier).AddPrecomputedValue"); c.R.Anchor(apv != nil, "stringclassifier.(*Classifier).AddPrecomputedValue") {
+		norm := p.Func(scPkg, "(*Classifier).normalize")
+		bad := ""
+		for _, f := range pkgClosure(apv, scPkg) {
+			if f == norm {
+				bad = p.Pos(apv.Pos())
+			}
+		}
+		c.R.Check(bad == "", "R13.13", "AddPrecomputedValue registers the text it is given without normalising it", p.Pos(apv.Pos()), "normalize is not reachable from it",
+			"AddPrecomputedValue runs the normalisers over a text that is normalised already: with a normaliser that is not idempotent the registered text differs from the one its search set was computed from and from the normalised unknown text, so a verbatim copy is not found exactly")
+	}
 }
 
 // behindStringEquality: block b is only reached when a comparison of two strings for equality held.
@@ -547,7 +601,7 @@ func runC16(c *Ctx) {
 	// shared with C13: the classifier keeps its own copy of the normaliser list (R13.8) - the exported Normalizers slice it is
 	// built from can be assigned to afterwards
 	if c.R.Filter == nil {
-		borrowRules(c, []string{"R13.8"}, runC13)
+		borrowRules(c, []string{"R13.8", "R13.5"}, runC13)
 	}
 	mm := p.Func(core.RootMod, "(*License).MultipleMatch")
 	wct := p.Func(core.RootMod, "(*License).WithinConfidenceThreshold")
